@@ -28,9 +28,18 @@ FLOORS = {"quick": {"list_identity": 1500, "discover": 500, "plc_info": 400, "mo
           "thorough": {"list_identity": 50000, "discover": 20000, "plc_info": 5000, "module_info": 5000}}
 
 
+_TABLES = []
+
+
 def tables():
-    from pycomm3.cip.status_info import VENDORS, PRODUCT_TYPES
-    return VENDORS, PRODUCT_TYPES
+    """id -> name of every registered vendor / product type: a frozen copy (vf/data/identity_names.json, taken from the pinned tree),
+    not the library's live tables - a registered id that the library stops resolving must show"""
+    if not _TABLES:
+        import json
+        import os
+        d = json.load(open(os.path.join(os.path.dirname(os.path.dirname(os.path.abspath(__file__))), "data", "identity_names.json")))
+        _TABLES.append(({int(k): v for k, v in d["vendors"].items()}, {int(k): v for k, v in d["product_types"].items()}))
+    return _TABLES[0]
 
 
 def expected(idn, with_list_fields):
@@ -67,7 +76,7 @@ class FakeUDP:
         pass
 
     def bind(self, addr):
-        pass
+        self.shim.bound.append(addr)
 
     def sendto(self, msg, addr):
         self.shim.sent.append((bytes(msg), addr))
@@ -86,15 +95,34 @@ class SocketShim:
     """stands where the `socket` module is imported in pycomm3.cip_driver (UDP discover only)"""
     AF_INET, SOCK_DGRAM, SOL_SOCKET, SO_BROADCAST = 2, 2, 1, 6
 
+    class AddressFamily:
+        AF_INET, AF_INET6 = 2, 10
+
     class timeout(OSError):
         pass
 
-    def __init__(self, datagrams):
-        self.datagrams = list(datagrams)
+    def __init__(self, datagrams, interfaces=(), deliver_at=0):
+        self.plan = [[] for _ in range(deliver_at)] + [list(datagrams)]   # the k-th socket created receives plan[k]
+        self.datagrams = []
+        self.interfaces = list(interfaces)
         self.sent = []
+        self.bound = []
+        self.created = 0
 
     def socket(self, *a):
+        self.datagrams = self.plan[self.created] if self.created < len(self.plan) else []
+        self.created += 1
         return FakeUDP(self)
+
+    def gethostname(self):
+        return "verif-host"
+
+    def getaddrinfo(self, host, port, *a):
+        out = [(10, 1, 6, "", ("fe80::1", 0, 0, 0))]
+        for ip in self.interfaces:
+            out.append((2, 1, 6, "", (ip, 0)))
+            out.append((2, 2, 17, "", (ip, 0)))
+        return out
 
 
 def list_identity_frame(idn, session=0, ctx=b"\x00" * 8):
@@ -138,16 +166,20 @@ def check_identity(c):
             grams = [list_identity_frame(dict(RefTarget({"identity": i}).identity)) for i in [idn] + others]
             if c.get("junk"):
                 grams.insert(1, bytes(c["junk"]))
-            shim = SocketShim(grams)
+            # the public entry: discover() looks up the host's IPv4 interfaces, broadcasts on each, and falls back to an unbound socket
+            ifs = list(c.get("interfaces", ["10.0.0.1"]))
+            shim = SocketShim(grams, ifs, 2 * len(ifs) if c.get("fallback") else (2 * (c.get("at", 0) % len(ifs)) if ifs else 0))
             real = cd.socket
             cd.socket = shim
             try:
-                from pycomm3.packets import ListIdentityRequestPacket
-                req = ListIdentityRequestPacket()
-                msg = req.build_request(None, 0, b"\x00" * 8, 0)
-                devs = CIPDriver._broadcast_discover("10.0.0.1", msg, req)
+                devs = CIPDriver.discover()
+            except PycommError as e:
+                devs = None
+                discs.append(Disc("discover.raises", repr(e)))
             finally:
                 cd.socket = real
+            if devs is None:
+                return discs
             if not shim.sent or shim.sent[0][0][:2] != b"\x63\x00" or len(shim.sent[0][0]) != 24:
                 discs.append(Disc("discover.request", f"broadcast datagram {shim.sent[:1]!r}"))
             if not devs:
@@ -248,6 +280,9 @@ def cases(draw):
     if entry == "discover":
         c["others"] = [draw(identities()) for _ in range(draw(st.integers(0, 2)))]
         c["junk"] = draw(st.one_of(st.none(), st.none(), st.binary(max_size=30)))
+        c["interfaces"] = draw(st.sampled_from([["10.0.0.1"], ["10.0.0.1", "192.168.1.5"], [], ["172.16.0.9", "10.0.0.1", "192.168.7.7"]]))
+        c["at"] = draw(st.integers(0, 2))
+        c["fallback"] = draw(st.integers(0, 3)) == 0
     return c
 
 
